@@ -201,6 +201,10 @@ class Ctx:
         by_backend = {}
         for o in self.obligations:
             by_backend[o.get("backend", "?")] = by_backend.get(o.get("backend", "?"), 0) + 1
+        level = self.level
+        if level == "proof" and (d_ok != d_total or d_total == 0):
+            level = "other"
+            self.explanation += " [level downgraded from proof: not every obligation is discharged on this tree (known findings or undecided obligations); see obligation_list]"
         cov = {
             "explanation": self.explanation,
             "obligations": d_total,
@@ -228,7 +232,7 @@ class Ctx:
             "property_id": self.pid,
             "tier": self.tier,
             "seed": int(self.seed),
-            "level": self.level,
+            "level": level,
             "coverage": cov,
             "assumptions": self.assumptions,
             "wall_s": round(time.time() - self.t0, 2),
